@@ -148,6 +148,8 @@ def render_field(entries, rng, substvars=False, empties=True):
 # ("set_archs", i, j, archs) ("add_profile", i, j, group)
 # E = (entry-how, [relations], rel-how or None, seed-for-layout); R = (rel-how, relation)
 REBUILD_ROOT = ("push", "insert")
+LIVE_REG = 42
+LIVE_OPS = ("push_live", "insert_live", "replace_live", "epush_live", "ereplace_live")
 
 def op_operand_programs(op, rng_seed):
     """register-machine text for building the operand of op into scratch registers (entry 40 / relation 40)"""
@@ -160,6 +162,13 @@ def op_operand_programs(op, rng_seed):
     if k in ("epush", "ereplace"):
         how, r = op[-1]
         return f"nr/40/{rel_spec(r, how, rng)}"
+    # operands that are LIVE handles of the field itself (the API takes them by value and must
+    # copy them: the place they come from stays as it is)
+    if k in ("push_live", "insert_live", "replace_live"):
+        return f"ge/{LIVE_REG}/{op[-1]}"
+    if k in ("epush_live", "ereplace_live"):
+        i2, j2 = op[-1]
+        return f"ge/{LIVE_REG}/{i2} gr/{LIVE_REG}/{LIVE_REG}/{j2}"
     return None
 
 class ListModel:
@@ -181,6 +190,12 @@ class ListModel:
         if k == "insert": return True
         if k in ("replace", "remove_entry", "eremove"): return op[1] < n
         if k == "epush": return op[1] < n
+        if k in ("push_live", "insert_live"): return op[-1] < n
+        if k == "replace_live": return op[1] < n and op[2] < n
+        if k in ("epush_live", "ereplace_live"):
+            i2, j2 = op[-1]
+            if not (op[1] < n and i2 < n and j2 < len(self.entries[i2]["rels"])): return False
+            return k == "epush_live" or op[2] < len(self.entries[op[1]]["rels"])
         if k in ("ereplace", "eremove_relation", "rremove", "set_version", "drop_constraint", "set_archqual", "set_archs", "add_profile"):
             return op[1] < n and op[2] < len(self.entries[op[1]]["rels"])
         raise ValueError(k)
@@ -193,6 +208,18 @@ class ListModel:
             self.entries.insert(min(op[1], len(self.entries)), self._entry(op[2][1])); return "rebuild-root"
         if k == "replace":
             self.entries[op[1]] = self._entry(op[2][1]); return ""
+        if k == "push_live":
+            self.entries.append(self._entry([x["r"] for x in self.entries[op[1]]["rels"]])); return "rebuild-root"
+        if k == "insert_live":
+            self.entries.insert(min(op[1], len(self.entries)), self._entry([x["r"] for x in self.entries[op[2]]["rels"]])); return "rebuild-root"
+        if k == "replace_live":
+            self.entries[op[1]] = self._entry([x["r"] for x in self.entries[op[2]]["rels"]]); return ""
+        if k == "epush_live":
+            i2, j2 = op[2]
+            self.entries[op[1]]["rels"].append(self._rel(self.entries[i2]["rels"][j2]["r"])); return "rebuild-entry"
+        if k == "ereplace_live":
+            i2, j2 = op[3]
+            self.entries[op[1]]["rels"][op[2]] = self._rel(self.entries[i2]["rels"][j2]["r"]); return ""
         if k in ("remove_entry", "eremove"):
             del self.entries[op[1]]; return ""
         e = self.entries[op[1]]
@@ -230,6 +257,11 @@ def op_text(op, e_reg, r_reg):
     if k == "replace": return f"rep/{op[1]}/{E_SCRATCH}"
     if k == "remove_entry": return f"rme/{op[1]}"
     if k == "epush": return f"epush/{e_reg}/{R_SCRATCH}"
+    if k == "push_live": return f"push/{LIVE_REG}"
+    if k == "insert_live": return f"ins/{op[1]}/{LIVE_REG}"
+    if k == "replace_live": return f"rep/{op[1]}/{LIVE_REG}"
+    if k == "epush_live": return f"epush/{e_reg}/{LIVE_REG}"
+    if k == "ereplace_live": return f"erep/{e_reg}/{op[2]}/{LIVE_REG}"
     if k == "ereplace": return f"erep/{e_reg}/{op[2]}/{R_SCRATCH}"
     if k == "eremove_relation": return f"ermr/{e_reg}/{op[2]}"
     if k == "eremove": return f"erm/{e_reg}"
@@ -241,7 +273,7 @@ def op_text(op, e_reg, r_reg):
     if k == "add_profile": return f"ap/{r_reg}/{group_spec(op[3])}"
     raise ValueError(k)
 
-ENTRY_LEVEL = ("epush", "ereplace", "eremove_relation", "eremove")
+ENTRY_LEVEL = ("epush", "ereplace", "eremove_relation", "eremove", "epush_live", "ereplace_live")
 REL_LEVEL = ("rremove", "set_version", "drop_constraint", "set_archqual", "set_archs", "add_profile")
 
 def compile_programs(init_entries, ops, seed, frozen=False, with_marks=False):
@@ -275,7 +307,8 @@ def compile_programs(init_entries, ops, seed, frozen=False, with_marks=False):
             obtain_all()
         for n, op in enumerate(ops):
             operand = op_operand_programs(op, seed * 1000 + n)
-            if operand: emit(operand)
+            if operand:
+                for ins in operand.split(" "): emit(ins)
             if not m.valid(op):
                 # outside the list model: issue it through whatever is there (fresh handles)
                 k = op[0]
@@ -390,6 +423,41 @@ def history_case(rng, cid, kind=None, nops=None, frozen=False):
     seed = rng.randrange(1 << 30)
     progs, exps = compile_programs(entries, ops, seed, frozen=frozen)
     return (cid, ["1", init, encode_meta(entries, ops, seed)] + progs), {"entries": entries, "ops": ops, "exps": exps}
+
+def gen_live_op(rng, m):
+    """an operation whose operand is a live handle of the field (entry i2 / relation (i2, j2))"""
+    n = len(m.entries)
+    if n == 0: return ("push", gen_entry_operand(rng))
+    i2 = rng.randrange(n); j2 = rng.randrange(len(m.entries[i2]["rels"]))
+    k = rng.choice(LIVE_OPS)
+    if k == "push_live": return (k, i2)
+    if k == "insert_live": return (k, rng.randrange(n + 2), i2)
+    if k == "replace_live": return (k, rng.randrange(n), i2)
+    i = rng.randrange(n)
+    if k == "epush_live": return (k, i, (i2, j2))
+    return (k, i, rng.randrange(len(m.entries[i]["rels"])), (i2, j2))
+
+def live_operand_case(rng, cid, frozen=False):
+    kind = rng.choice(["T", "T", "S", "C"])
+    entries = gen_entries(rng) or [[gen_rel(rng, 0.4)]]
+    init = init_spec(kind, entries, rng, substvars=(kind == "T" and rng.random() < 0.3))
+    m = ListModel(entries)
+    ops = []
+    for _ in range(rng.choice([1, 1, 2, 3, 5])):
+        op = gen_live_op(rng, m) if rng.random() < 0.6 else gen_op(rng, m, out_of_range=0.0)
+        ops.append(op)
+        if m.valid(op): m.apply(op)
+    seed = rng.randrange(1 << 30)
+    progs, exps = compile_programs(entries, ops, seed, frozen=frozen)
+    return (cid, ["1", init, encode_meta(entries, ops, seed)] + progs), {"entries": entries, "ops": ops, "exps": exps}
+
+def live_operand_cases(n, rng, prefix):
+    out = []
+    for i in range(n):
+        case, meta = live_operand_case(rng, f"{prefix}{i}", frozen=(i % 5 == 0))
+        EXPECT[case[0]] = meta
+        out.append(case)
+    return out
 
 # the expectations of generated cases, by case id (the oracle needs the abstract history)
 EXPECT = {}
